@@ -91,7 +91,8 @@ def _items(game, kind, rows):
                 out.append(OsuHit(offset=float(F(r[0])), column=r[1], hitsound_set=s["hs"], sample_set=s["ss"],
                                   addition_set=s["ad"], custom_set=s["cs"], volume=s["v"], hitsound_file=s["f"]))
             else:
-                kw = dict(sample=b"0A") if game == "bms" else {}
+                # BMS: every note carries its own key sound (a function of the row's place in the GENERATED order)
+                kw = dict(sample=b"h%02d.wav" % i) if game == "bms" else {}
                 out.append(K["hit"](offset=float(F(r[0])), column=r[1], **kw))
         elif kind == "holds":
             if game == "osu" and len(r) > 3:
@@ -101,7 +102,7 @@ def _items(game, kind, rows):
                                    sample_set=s["ss"], addition_set=s["ad"], custom_set=s["cs"], volume=s["v"],
                                    hitsound_file=s["f"]))
             else:
-                kw = dict(sample=b"0B") if game == "bms" else {}
+                kw = dict(sample=b"l%02d.wav" % i) if game == "bms" else {}
                 out.append(K["hold"](offset=float(F(r[0])), column=r[1], length=float(F(r[2])), **kw))
         elif kind == "bpms":
             out.append(K["bpm"](offset=float(F(r[0])), bpm=float(F(r[1]))))
@@ -946,8 +947,8 @@ def gen_free_chart(rng, tier, game, ties):
         holds.append([h[0], h[1], R(250)])
     for l in (hits, holds, bpms, svs):
         rng.shuffle(l)
-    if rng.random() < 0.3:
-        bpms.sort(key=lambda p: F(p[0]))
+        if rng.random() < 0.5:
+            l.sort(key=lambda p: F(p[0]))          # the generated order is the file order of a reader: by time
     return dict(hits=hits, holds=holds, bpms=bpms, svs=svs), keys
 
 
@@ -990,6 +991,8 @@ def gen_grid_chart(rng, tier, game):
             svs.append([R(tt), R(Fr(rng.choice(E_MULTS)))])
     for l in (hits, holds, bpms, svs):
         rng.shuffle(l)
+        if rng.random() < 0.6:
+            l.sort(key=lambda p: F(p[0]))
     return dict(hits=hits, holds=holds, bpms=bpms, svs=svs), keys, bpms
 
 
